@@ -5,13 +5,43 @@
    heuristics of generate_prefix_code() and divsufsort are not modelled, their
    results are checked (per generated case, on the real encoder state) to satisfy
    witness_ok and the real transmit() is compared byte for byte with write_block.
-   Stage inverses (all proved, for all inputs): *)
+   C01_roundtrip is the composed statement; the stage inverses follow. *)
 From Coq Require Import List NArith Arith Bool Lia.
 From LBZ Require Rle.RleModel.
 From LBZ Require Import Common.Bits Dec.Prog Dec.Format Dec.Policies Enc.EncModel Gen.Consts
-  Enc.HuffProofs Enc.MtfProofs Enc.BwtProofs Enc.RleInvProofs Enc.LayoutA Enc.LayoutB.
+  Enc.HuffProofs Enc.MtfProofs Enc.BwtProofs Enc.RleInvProofs Enc.LayoutA Enc.LayoutB Enc.BlockProofs Enc.StreamProofs Enc.EncCompose
+  Dec.CrcProofs.
 Import ListNotations.
 Local Open Scope N_scope.
+
+(* THE ROUND TRIP: for every level, every way the input is cut into non-empty blocks
+   x_1..x_k (default or --sequential mode, any chunking - C04 says which), every valid
+   BWT index and every acceptable choice of tables/selectors/padding, the bytes
+   written decode - with lbzip2's own decoder model - to exactly x_1 ++ .. ++ x_k.
+   Also covers the empty input (k = 0). *)
+Theorem C01_roundtrip :
+  forall level (ws : list witness) (xs : list (list N)),
+    1 <= level <= 9 ->
+    Forall2 (fun w x => witness_ok (100000 * level) w = true /\ Forall (fun c => c < 256) x /\ x <> [] /\
+                        w_blk w = RleModel.rle1 x /\ w_crc w = N.lxor (crc_bytes mask32 x) mask32) ws xs ->
+    lbz_decode (bytes_of_bits (pad_to_byte (write_stream level ws))) = Ok (concat xs).
+Proof. exact stream_roundtrip_lbz. Qed.
+
+(* one block: what the block reader reconstructs, and what it decodes to *)
+Theorem C01_block_roundtrip :
+  forall M level w x fuel rest,
+    1 <= level <= 9 -> M = 100000 * level -> witness_ok M w = true -> (64 <= fuel)%nat ->
+    Forall (fun c => c < 256) x -> x <> [] -> w_blk w = RleModel.rle1 x ->
+    run (read_block ref_noexc_policy fuel) (write_body w ++ rest) = Ok (raw_of w, rest) /\
+    decode_block ref_noexc_policy level (raw_of w) = Ok x.
+Proof. exact block_roundtrip_both. Qed.
+
+(* non-vacuity: a concrete acceptable witness *)
+Example C01_witness_example :
+  witness_ok 100 {| w_blk := [98;97;110;97;110;97;97;97;97;97;0;3]; w_idx := 9;
+                    w_tables := [[2;3;3;3;3;3;3]; [3;3;3;3;3;3;2]]; w_sels := [1]; w_extra_sel := false;
+                    w_pad := 2; w_crc := 12345 |} = true.
+Proof. vm_compute. reflexivity. Qed.
 
 (* initial run-length coding *)
 Theorem C01_stage_rle : forall x, Forall (fun c => c < 256) x -> unrle true 256 0 (RleModel.rle1 x) = Ok x.
